@@ -35,6 +35,29 @@ def A_serde(ctx, lib):
             continue
         skipped = any("skip" in x for x in fields[f]["attrs"])
         ctx.ob(rule, "Bdd.%s serialised" % f, not skipped, expected="no serde(skip)", found=fields[f]["attrs"])
+    # the unique table goes through obdd::vectorize: the whole map is written (into_iter -> collect, nothing skipped, taken or filtered) and the whole vector is read back
+    from mirlib import flow
+    for fn, want in (("serialize", ("into_iter", "collect")), ("deserialize", None)):
+        bs = [x for x in lib.all_bodies if x.kind != "closure" and x.short.endswith("obdd::vectorize::" + fn)]
+        if len(bs) != 1:
+            ctx.lost(rule, "vectorize::" + fn, "found %d" % len(bs))
+            continue
+        vb = bs[0]
+        calls, d = flow.all_call_exprs(vb)
+        if fn == "serialize":
+            coll = [e for bb, t, ci, e in calls if e[0] == "call" and flow.last(e[2]) == "collect"]
+            ok = False
+            found = [flow.show(e)[:160] for e in coll]
+            if len(coll) == 1:
+                src, steps = flow.chain_of(coll[0])
+                names = [s_[0] for s_ in steps]
+                ok = src == ("param", 1) and names == ["into_iter", "collect"]
+                found = "%s %s" % (flow.show(src), names)
+            ctx.ob(rule, "vectorize.serialize-whole-map", ok, where=vb.where(), expected="target.into_iter().collect() - every entry", found=found)
+        else:
+            fi = [e for bb, t, ci, e in calls if e[0] == "call" and flow.last(e[2]) == "from_iter"]
+            ok = len(fi) == 1 and not [e for bb, t, ci, e in calls if e[0] == "call" and flow.last(e[2]) in ("skip", "take", "filter", "step_by", "skip_while", "take_while", "truncate", "pop", "remove", "retain", "dedup")]
+            ctx.ob(rule, "vectorize.deserialize-whole-vector", ok, where=vb.where(), expected="T::from_iter(container) - every entry", found=[flow.show(e)[:120] for e in fi])
 
 
 def check(ctx):
